@@ -104,15 +104,23 @@ def columns(G, mode, cyc, starts, ends, B=3):
     return cols, None
 
 
-def classify_mechanism(solve, cols, m, mode, lib_value):
+def classify_mechanism(solve, cols, m, mode, lib_value, cols_fn=None):
     """Is the library optimal under (a) its per-edge multiplicity caps (largest reachable weight), (b) its bound w_max on every
-    product multiplicity*weight, (c) both? Returns a mechanism suffix or None. Used only to key known findings by mechanism."""
+    product multiplicity*weight, (c) both? Returns a mechanism suffix or None. Used only to key known findings by mechanism.
+    The restricted problems are solved over columns with multiplicities up to the library's own largest cap (cols_fn(B)),
+    because the library's restricted optimum may use larger multiplicities than the witness search did."""
     caps = getattr(m, "edge_upper_bounds", None) or {}
     wmax = getattr(m, "w_max", None)
     def cap_of(el):
         key = (el + ".0", el + ".1") if mode == "node" else el
         c = caps.get(key)
         return None if c is None else int(c + 1e-9)
+    if cols_fn is not None:
+        try:
+            big = int(max([c for c in caps.values() if isinstance(c, (int, float))] + [3]) + 1e-9)
+            cols = cols_fn(max(3, min(big, 7)))
+        except ref.RefTimeout:
+            pass
     capped_cols = [c for c in cols if all(cap_of(el) is None or mult <= cap_of(el) for el, mult in c.items())]
     for name, cc, pc in (("/edge-cap-max-reachable-weight", capped_cols, None), ("/product-bound-w_max", cols, wmax), ("/edge-cap+product-bound", capped_cols, wmax)):
         if pc is None and len(cc) == len(cols):
@@ -272,7 +280,8 @@ def run_case(case):
                         obs["c08.cyc_witness_compared"] += 1
                         sample["witness"] = float(wit)
                         if tot > float(wit) + 1e-6 * max(1, abs(float(wit))):
-                            mech = classify_mechanism(lambda cc, pc: ref.mpe_min(cc, demand, keff, models.WT[wt], sc, prod_cap=pc), cols, m, mode, tot) or tagstr
+                            mech = classify_mechanism(lambda cc, pc: ref.mpe_min(cc, demand, keff, models.WT[wt], sc, prod_cap=pc), cols, m, mode, tot,
+                                                      cols_fn=lambda B: columns(G, mode, cyc, case["starts"], case["ends"], B)[0]) or tagstr
                             viol.append({"sig": f"C08/{cls}/worse-than-witness{mech}", "msg": f"sum of slacks {tot} but a solution with multiplicities <= 3 achieves {wit}; {desc}"})
             except ref.RefTimeout:
                 obs["c08.ref_timeout"] += 1
